@@ -32,6 +32,8 @@ type Term struct {
 	Bound []*Term  // KQuant bound vars (KVar)
 	Pats  [][]*Term
 	key   string
+	id    int
+	size  int // tree size (saturating), used to decide what to name when printing
 }
 
 const (
@@ -42,23 +44,80 @@ const (
 )
 
 var (
-	TTrue  = &Term{K: KBool, B: true, Sort: SBool}
-	TFalse = &Term{K: KBool, B: false, Sort: SBool}
+	TTrue  = intern(&Term{K: KBool, B: true, Sort: SBool})
+	TFalse = intern(&Term{K: KBool, B: false, Sort: SBool})
 )
 
-func IntT(i int64) *Term    { return &Term{K: KInt, I: big.NewInt(i), Sort: SInt} }
-func BigT(i *big.Int) *Term { return &Term{K: KInt, I: new(big.Int).Set(i), Sort: SInt} }
+// Hash-consing: structurally equal terms are the same object; Key() is the object's id, so equality
+// tests and caches never build strings proportional to the (tree) size of a shared DAG.
+var internTab = map[string]*Term{}
+var internCtr int
+
+func intern(t *Term) *Term {
+	var sb strings.Builder
+	sb.WriteByte(byte('0' + t.K))
+	sb.WriteByte('|')
+	sb.WriteString(t.Name)
+	sb.WriteByte('|')
+	sb.WriteString(t.Sort)
+	switch t.K {
+	case KBool:
+		if t.B {
+			sb.WriteString("|T")
+		}
+	case KInt:
+		sb.WriteByte('|')
+		sb.WriteString(t.I.String())
+	}
+	for _, a := range t.Args {
+		sb.WriteByte(',')
+		sb.WriteString(a.Key())
+	}
+	if t.K == KQuant {
+		sb.WriteByte(';')
+		for _, b := range t.Bound {
+			sb.WriteString(b.Key())
+			sb.WriteByte(',')
+		}
+		for _, p := range t.Pats {
+			sb.WriteByte('/')
+			for _, x := range p {
+				sb.WriteString(x.Key())
+				sb.WriteByte(',')
+			}
+		}
+	}
+	sig := sb.String()
+	if e, ok := internTab[sig]; ok {
+		return e
+	}
+	internCtr++
+	t.id = internCtr
+	t.key = "#" + strconv.Itoa(internCtr)
+	t.size = 1
+	for _, a := range t.Args {
+		t.size += a.size
+		if t.size > 1<<40 {
+			t.size = 1 << 40
+		}
+	}
+	internTab[sig] = t
+	return t
+}
+
+func IntT(i int64) *Term    { return intern(&Term{K: KInt, I: big.NewInt(i), Sort: SInt}) }
+func BigT(i *big.Int) *Term { return intern(&Term{K: KInt, I: new(big.Int).Set(i), Sort: SInt}) }
 func BoolT(b bool) *Term {
 	if b {
 		return TTrue
 	}
 	return TFalse
 }
-func Var(name, sort string) *Term { return &Term{K: KVar, Name: name, Sort: sort} }
+func Var(name, sort string) *Term { return intern(&Term{K: KVar, Name: name, Sort: sort}) }
 
 func (t *Term) Key() string {
 	if t.key == "" {
-		t.key = t.String()
+		panic("term not interned")
 	}
 	return t.key
 }
@@ -96,6 +155,65 @@ func (t *Term) String() string {
 	var sb strings.Builder
 	t.write(&sb)
 	return sb.String()
+}
+
+// writeShared prints t, referring to named shared subterms by name (top: print the definition itself).
+func (t *Term) writeShared(sb *strings.Builder, named map[int]string, top bool) {
+	if !top {
+		if nm, ok := named[t.id]; ok {
+			sb.WriteString(nm)
+			return
+		}
+	}
+	switch t.K {
+	case KApp:
+		if len(t.Args) == 0 {
+			sb.WriteString(sym(t.Name))
+			return
+		}
+		sb.WriteString("(")
+		if isBuiltin(t.Name) || strings.HasPrefix(t.Name, "(_ is ") {
+			sb.WriteString(t.Name)
+		} else {
+			sb.WriteString(sym(t.Name))
+		}
+		for _, a := range t.Args {
+			sb.WriteString(" ")
+			a.writeShared(sb, named, false)
+		}
+		sb.WriteString(")")
+	case KQuant:
+		sb.WriteString("(")
+		sb.WriteString(t.Name)
+		sb.WriteString(" (")
+		for i, b := range t.Bound {
+			if i > 0 {
+				sb.WriteString(" ")
+			}
+			sb.WriteString("(" + sym(b.Name) + " " + b.Sort + ")")
+		}
+		sb.WriteString(") ")
+		if len(t.Pats) > 0 {
+			sb.WriteString("(! ")
+		}
+		t.Args[0].writeShared(sb, named, false)
+		if len(t.Pats) > 0 {
+			for _, p := range t.Pats {
+				sb.WriteString(" :pattern (")
+				for i, x := range p {
+					if i > 0 {
+						sb.WriteString(" ")
+					}
+					x.writeShared(sb, named, false)
+				}
+				sb.WriteString(")")
+			}
+			sb.WriteString(")")
+		}
+		sb.WriteString(")")
+	default:
+		t.write(sb)
+	}
 }
 
 func (t *Term) write(sb *strings.Builder) {
@@ -173,7 +291,7 @@ var builtins = map[string]bool{"and": true, "or": true, "not": true, "=>": true,
 func isBuiltin(n string) bool { return builtins[n] }
 
 func App(name, sort string, args ...*Term) *Term {
-	return &Term{K: KApp, Name: name, Args: args, Sort: sort}
+	return intern(&Term{K: KApp, Name: name, Args: args, Sort: sort})
 }
 
 // ---- boolean connectives with folding ----
@@ -467,16 +585,94 @@ func arrayElemSort(s string) string {
 	return rest[sp+1 : len(rest)-1]
 }
 
-func Select(a, i *Term) *Term {
-	for a.K == KApp && a.Name == "store" {
-		if a.Args[1].Key() == i.Key() {
-			return a.Args[2]
+// splitOffset views t as base + literal offset.
+func splitOffset(t *Term) (*Term, *big.Int) {
+	if t.IsLit() {
+		return nil, t.I
+	}
+	if t.K == KApp && t.Name == "+" && len(t.Args) == 2 && t.Args[1].IsLit() {
+		return t.Args[0], t.Args[1].I
+	}
+	return t, big.NewInt(0)
+}
+
+// distinctIdx: syntactically provably different indices (literals, or the same base with different offsets).
+func distinctIdx(a, b *Term) bool {
+	ba, oa := splitOffset(a)
+	bb, ob := splitOffset(b)
+	if ba == bb {
+		return oa.Cmp(ob) != 0
+	}
+	// nil (0) versus an allocated object: allocation bases are >= 0 and offsets of objects are >= 1
+	isAllocBase := func(t *Term) bool {
+		return t != nil && t.K == KVar && (t.Name == "alloc0" || strings.HasPrefix(t.Name, "allocL!"))
+	}
+	if ba == nil && oa.Sign() <= 0 && isAllocBase(bb) && ob.Sign() > 0 {
+		return true
+	}
+	if bb == nil && ob.Sign() <= 0 && isAllocBase(ba) && oa.Sign() > 0 {
+		return true
+	}
+	return false
+}
+
+// hvInfo describes an array obtained by forgetting `old` at the references in refs and above the watermark w0.
+type hvInfo struct {
+	old, fresh *Term
+	refs       []*Term
+	w0         *Term
+}
+
+var hvTab = map[string]*hvInfo{}
+
+// hvResolve decides syntactically which side of a partially forgotten array index i reads (nil = undecided).
+func hvResolve(h *hvInfo, i *Term) *Term {
+	for _, r := range h.refs {
+		if r == i {
+			return h.fresh
 		}
-		if a.Args[1].IsLit() && i.IsLit() {
-			a = a.Args[0]
-			continue
+	}
+	bi, oi := splitOffset(i)
+	bw, ow := splitOffset(h.w0)
+	if bi == bw && oi.Cmp(ow) <= 0 {
+		// an object that existed before the region: unchanged unless it is one of the given references
+		for _, r := range h.refs {
+			if !distinctIdx(r, i) {
+				return nil
+			}
+		}
+		return h.old
+	}
+	if bi == nil && oi.Sign() <= 0 {
+		return h.old // nil
+	}
+	return nil
+}
+
+func Select(a, i *Term) *Term {
+	for {
+		if a.K == KApp && a.Name == "store" {
+			if a.Args[1] == i {
+				return a.Args[2]
+			}
+			if distinctIdx(a.Args[1], i) {
+				a = a.Args[0]
+				continue
+			}
+			break
+		}
+		if a.K == KVar {
+			if h, ok := hvTab[a.Name]; ok {
+				if side := hvResolve(h, i); side != nil {
+					a = side
+					continue
+				}
+			}
 		}
 		break
+	}
+	if a.K == KApp && a.Name == "ite" {
+		return Ite(a.Args[0], Select(a.Args[1], i), Select(a.Args[2], i))
 	}
 	return App("select", arrayElemSort(a.Sort), a, i)
 }
@@ -497,7 +693,7 @@ func Forall(bound []*Term, body *Term, pats ...[]*Term) *Term {
 	if len(bound) == 0 {
 		return body
 	}
-	return &Term{K: KQuant, Name: "forall", Bound: bound, Args: []*Term{body}, Sort: SBool, Pats: pats}
+	return intern(&Term{K: KQuant, Name: "forall", Bound: bound, Args: []*Term{body}, Sort: SBool, Pats: pats})
 }
 
 func Exists(bound []*Term, body *Term) *Term {
@@ -507,14 +703,143 @@ func Exists(bound []*Term, body *Term) *Term {
 	if len(bound) == 0 {
 		return body
 	}
-	return &Term{K: KQuant, Name: "exists", Bound: bound, Args: []*Term{body}, Sort: SBool}
+	return intern(&Term{K: KQuant, Name: "exists", Bound: bound, Args: []*Term{body}, Sort: SBool})
 }
 
-// Subst replaces free variables by name.
+// contains reports whether the free variable `name` occurs in t.
+func contains(t *Term, name string) bool {
+	return containsMemo(t, name, map[int]bool{})
+}
+
+func containsMemo(t *Term, name string, seen map[int]bool) bool {
+	switch t.K {
+	case KVar:
+		return t.Name == name
+	case KApp, KQuant:
+		if seen[t.id] {
+			return false
+		}
+		seen[t.id] = true
+		for _, a := range t.Args {
+			if containsMemo(a, name, seen) {
+				return true
+			}
+		}
+	}
+	return false
+}
+
+// expandBounded turns forall/exists over one Int variable with literal bounds lo <= i < hi (hi-lo <= 64)
+// into a finite conjunction/disjunction. Returns nil if the shape does not match.
+func expandBounded(kind string, v *Term, body *Term) *Term {
+	var guard, rest []*Term
+	var inner *Term
+	if kind == "forall" {
+		if !(body.K == KApp && body.Name == "=>") {
+			return nil
+		}
+		guard = conjList(body.Args[0])
+		inner = body.Args[1]
+	} else {
+		guard = conjList(body)
+	}
+	var lo, hi *big.Int
+	for _, g := range guard {
+		if g.K == KApp && len(g.Args) == 2 {
+			a, b := g.Args[0], g.Args[1]
+			switch {
+			case g.Name == "<=" && a.IsLit() && b.K == KVar && b.Name == v.Name:
+				lo = a.I
+				continue
+			case g.Name == "<" && a.K == KVar && a.Name == v.Name && b.IsLit():
+				hi = b.I
+				continue
+			case g.Name == "<" && a.K == KVar && a.Name == v.Name && maxLit(b) != nil && hi == nil:
+				hi = maxLit(b)
+				rest = append(rest, g) // keep the symbolic guard
+				continue
+			case g.Name == "<=" && a.K == KVar && a.Name == v.Name && b.IsLit():
+				hi = new(big.Int).Add(b.I, big.NewInt(1))
+				continue
+			case g.Name == "<" && a.IsLit() && b.K == KVar && b.Name == v.Name:
+				lo = new(big.Int).Add(a.I, big.NewInt(1))
+				continue
+			}
+		}
+		rest = append(rest, g)
+	}
+	if lo == nil || hi == nil {
+		return nil
+	}
+	n := new(big.Int).Sub(hi, lo)
+	if n.Sign() < 0 {
+		n = big.NewInt(0)
+	}
+	if n.Cmp(big.NewInt(64)) > 0 {
+		return nil
+	}
+	var parts []*Term
+	for k := new(big.Int).Set(lo); k.Cmp(hi) < 0; k = new(big.Int).Add(k, big.NewInt(1)) {
+		m := map[string]*Term{v.Name: BigT(k)}
+		if kind == "forall" {
+			parts = append(parts, Implies(Subst(And(rest...), m), Subst(inner, m)))
+		} else {
+			parts = append(parts, Subst(And(rest...), m))
+		}
+	}
+	if kind == "forall" {
+		return And(parts...)
+	}
+	return Or(parts...)
+}
+
+// maxLit: a literal upper bound of an integer term built from literals, ite and + (nil if none is syntactic).
+func maxLit(t *Term) *big.Int {
+	if t.IsLit() {
+		return t.I
+	}
+	if t.K == KApp {
+		switch t.Name {
+		case "ite":
+			a, b := maxLit(t.Args[1]), maxLit(t.Args[2])
+			if a == nil || b == nil {
+				return nil
+			}
+			if a.Cmp(b) >= 0 {
+				return a
+			}
+			return b
+		case "+":
+			sum := big.NewInt(0)
+			for _, x := range t.Args {
+				m := maxLit(x)
+				if m == nil {
+					return nil
+				}
+				sum = new(big.Int).Add(sum, m)
+			}
+			return sum
+		}
+	}
+	return nil
+}
+
+func conjList(t *Term) []*Term {
+	if t.K == KApp && t.Name == "and" {
+		return t.Args
+	}
+	return []*Term{t}
+}
+
+// Subst replaces free variables by name (memoised over the term DAG).
 func Subst(t *Term, m map[string]*Term) *Term {
 	if len(m) == 0 {
 		return t
 	}
+	return substMemo(t, m, map[int]*Term{})
+}
+
+func substMemo(t *Term, m map[string]*Term, memo map[int]*Term) *Term {
 	switch t.K {
 	case KBool, KInt:
 		return t
@@ -523,8 +848,15 @@ func Subst(t *Term, m map[string]*Term) *Term {
 			return r
 		}
 		return t
+	}
+	if r, ok := memo[t.id]; ok {
+		return r
+	}
+	var res *Term
+	switch t.K {
 	case KQuant:
 		inner := m
+		innerMemo := memo
 		for _, b := range t.Bound {
 			if _, ok := m[b.Name]; ok {
 				inner = map[string]*Term{}
@@ -534,37 +866,43 @@ func Subst(t *Term, m map[string]*Term) *Term {
 				for _, b2 := range t.Bound {
 					delete(inner, b2.Name)
 				}
+				innerMemo = map[int]*Term{}
 				break
 			}
 		}
-		nb := Subst(t.Args[0], inner)
+		nb := substMemo(t.Args[0], inner, innerMemo)
 		if nb == t.Args[0] {
-			return t
-		}
-		var np [][]*Term
-		for _, p := range t.Pats {
-			var q []*Term
-			for _, x := range p {
-				q = append(q, Subst(x, inner))
+			res = t
+		} else {
+			var np [][]*Term
+			for _, p := range t.Pats {
+				var q []*Term
+				for _, x := range p {
+					q = append(q, substMemo(x, inner, innerMemo))
+				}
+				np = append(np, q)
 			}
-			np = append(np, q)
+			res = intern(&Term{K: KQuant, Name: t.Name, Bound: t.Bound, Args: []*Term{nb}, Sort: SBool, Pats: np})
 		}
-		return &Term{K: KQuant, Name: t.Name, Bound: t.Bound, Args: []*Term{nb}, Sort: SBool, Pats: np}
 	case KApp:
 		changed := false
 		na := make([]*Term, len(t.Args))
 		for i, a := range t.Args {
-			na[i] = Subst(a, m)
+			na[i] = substMemo(a, m, memo)
 			if na[i] != a {
 				changed = true
 			}
 		}
 		if !changed {
-			return t
+			res = t
+		} else {
+			res = rebuild(t, na)
 		}
-		return rebuild(t, na)
+	default:
+		res = t
 	}
-	return t
+	memo[t.id] = res
+	return res
 }
 
 // rebuild re-applies the simplifying constructors after substitution.
@@ -606,7 +944,7 @@ func rebuild(t *Term, na []*Term) *Term {
 	if curReg != nil {
 		return curReg.Apply(t.Name, na...)
 	}
-	return &Term{K: KApp, Name: t.Name, Args: na, Sort: t.Sort}
+	return intern(&Term{K: KApp, Name: t.Name, Args: na, Sort: t.Sort})
 }
 
 // ---------------------------------------------------------------------------
@@ -744,10 +1082,8 @@ func (r *Registry) Apply(name string, args ...*Term) *Term {
 			}
 		}
 		if a.K == KApp && a.Name == "ite" {
-			// push selectors through ite of constructors (keeps struct updates small)
-			if isCtorApp(a.Args[1]) || isCtorApp(a.Args[2]) {
-				return Ite(a.Args[0], r.Apply(name, a.Args[1]), r.Apply(name, a.Args[2]))
-			}
+			// push selectors through ite (merged states): equal branches collapse again in Ite
+			return Ite(a.Args[0], r.Apply(name, a.Args[1]), r.Apply(name, a.Args[2]))
 		}
 		return App(name, si.dt.Ctors[si.ctor].Fields[si.idx].Sort, a)
 	}
@@ -817,6 +1153,18 @@ type Script struct {
 }
 
 func (r *Registry) collect(t *Term, bound map[string]bool, consts map[string]string, funs map[string]bool, sorts map[string]bool, quant *bool) {
+	r.collectMemo(t, bound, consts, funs, sorts, quant, map[int]bool{})
+}
+
+func (r *Registry) collectMemo(t *Term, bound map[string]bool, consts map[string]string, funs map[string]bool, sorts map[string]bool, quant *bool, seen map[int]bool) {
+	if t.K == KApp || t.K == KQuant {
+		// a subterm visited under one binder context yields the same symbols under any other, except that a
+		// variable bound elsewhere might be free here; bound variables carry unique names, so memoising is safe
+		if seen[t.id] {
+			return
+		}
+		seen[t.id] = true
+	}
 	sorts[t.Sort] = true
 	switch t.K {
 	case KVar:
@@ -828,7 +1176,7 @@ func (r *Registry) collect(t *Term, bound map[string]bool, consts map[string]str
 			funs[t.Name] = true
 		}
 		for _, a := range t.Args {
-			r.collect(a, bound, consts, funs, sorts, quant)
+			r.collectMemo(a, bound, consts, funs, sorts, quant, seen)
 		}
 	case KQuant:
 		*quant = true
@@ -840,10 +1188,10 @@ func (r *Registry) collect(t *Term, bound map[string]bool, consts map[string]str
 			nb[b.Name] = true
 			sorts[b.Sort] = true
 		}
-		r.collect(t.Args[0], nb, consts, funs, sorts, quant)
+		r.collectMemo(t.Args[0], nb, consts, funs, sorts, quant, seen)
 		for _, p := range t.Pats {
 			for _, x := range p {
-				r.collect(x, nb, consts, funs, sorts, quant)
+				r.collectMemo(x, nb, consts, funs, sorts, quant, seen)
 			}
 		}
 	}
@@ -1037,12 +1385,121 @@ func (r *Registry) BuildScript(asserts []*Term, logicOpts string) *Script {
 			fmt.Fprintf(&sb, "(assert (= (strlen %s) %d))\n", sym(l), len(*r.strLits[l]))
 		}
 	}
+	// Shared closed subterms are emitted once as nullary define-funs (the terms are DAGs; printing them as
+	// trees would be exponential).
+	boundNames := map[string]bool{}
+	var gatherBound func(t *Term, seen map[int]bool)
+	gatherBound = func(t *Term, seen map[int]bool) {
+		if t.K != KApp && t.K != KQuant {
+			return
+		}
+		if seen[t.id] {
+			return
+		}
+		seen[t.id] = true
+		if t.K == KQuant {
+			for _, b := range t.Bound {
+				boundNames[b.Name] = true
+			}
+			for _, p := range t.Pats {
+				for _, x := range p {
+					gatherBound(x, seen)
+				}
+			}
+		}
+		for _, a := range t.Args {
+			gatherBound(a, seen)
+		}
+	}
+	seenB := map[int]bool{}
+	var roots []*Term
 	for _, ax := range axs {
-		fmt.Fprintf(&sb, "(assert (! %s :named %s))\n", ax.Body, sym("ax:"+ax.Name))
+		roots = append(roots, ax.Body)
+	}
+	roots = append(roots, asserts...)
+	for _, t := range roots {
+		gatherBound(t, seenB)
+	}
+	closed := map[int]bool{}
+	var isClosed func(t *Term) bool
+	isClosed = func(t *Term) bool {
+		switch t.K {
+		case KBool, KInt:
+			return true
+		case KVar:
+			return !boundNames[t.Name]
+		}
+		if v, ok := closed[t.id]; ok {
+			return v
+		}
+		c := true
+		for _, a := range t.Args {
+			if !isClosed(a) {
+				c = false
+			}
+		}
+		if t.K == KQuant {
+			for _, p := range t.Pats {
+				for _, x := range p {
+					isClosed(x)
+				}
+			}
+			// a quantifier is closed if its body's only non-closed variables are its own: approximate by
+			// never naming quantified formulas (they are printed in place)
+			c = false
+		}
+		closed[t.id] = c
+		return c
+	}
+	refs := map[int]int{}
+	var order []*Term
+	var count func(t *Term, seen map[int]bool)
+	count = func(t *Term, seen map[int]bool) {
+		if t.K != KApp && t.K != KQuant {
+			return
+		}
+		refs[t.id]++
+		if seen[t.id] {
+			return
+		}
+		seen[t.id] = true
+		for _, a := range t.Args {
+			count(a, seen)
+		}
+		if t.K == KQuant {
+			for _, p := range t.Pats {
+				for _, x := range p {
+					count(x, seen)
+				}
+			}
+		}
+		order = append(order, t) // post-order
+	}
+	seenC := map[int]bool{}
+	for _, t := range roots {
+		count(t, seenC)
+	}
+	named := map[int]string{}
+	for _, t := range order {
+		if t.K == KApp && len(t.Args) > 0 && refs[t.id] >= 2 && t.size >= 6 && isClosed(t) {
+			named[t.id] = fmt.Sprintf("$t%d", t.id)
+		}
+	}
+	for _, t := range order {
+		if nm, ok := named[t.id]; ok {
+			fmt.Fprintf(&sb, "(define-fun %s () %s ", nm, t.Sort)
+			t.writeShared(&sb, named, true)
+			sb.WriteString(")\n")
+		}
+	}
+	for _, ax := range axs {
+		sb.WriteString("(assert (! ")
+		ax.Body.writeShared(&sb, named, false)
+		fmt.Fprintf(&sb, " :named %s))\n", sym("ax:"+ax.Name))
 	}
 	for _, a := range asserts {
 		sb.WriteString("(assert ")
-		sb.WriteString(a.String())
+		a.writeShared(&sb, named, false)
 		sb.WriteString(")\n")
 	}
 	txt := sb.String()
